@@ -378,6 +378,10 @@ def _pow(base, e):
         e = e.as_num()
     if isinstance(e, bool):
         e = int(e)
+    if isinstance(e, SymFrac):
+        st = z3.simplify(e.term)
+        if z3.is_rational_value(st):     # a proxy that is in fact a constant (e.g. the value of x**0)
+            e = Fraction(st.numerator_as_long(), st.denominator_as_long())
     if isinstance(e, SymFrac) or isinstance(e, (float, Fraction)):
         if _is_num(e) and _frac_of(e).denominator == 1:
             e = int(_frac_of(e))
@@ -877,6 +881,11 @@ def wrap_term(t):
 _UF_REGISTRY: dict = {}
 
 
+# applications recorded on the most recently executed path (ConcreteUF answers from them first, so that a replay
+# sees one function even when Int- and Real-sorted signatures of it got different default values in the model)
+_LAST_UF_APPS = [{}]
+
+
 class UF:
     """Uninterpreted callable for environments: f(*args, **kwargs) -> proxy.
     The z3 function symbol is keyed by name, argument sorts and keyword names,
@@ -906,6 +915,27 @@ class UF:
             f = _UF_REGISTRY[key] = z3.Function(fname, *sorts, rs) if sorts else z3.Const(fname, rs)
         t = f(*terms) if sorts else f
         self.calls.append((args, kwargs))
+        # one mathematical function: applications through Int- and Real-sorted signatures must agree on equal arguments
+        st = explore.current()
+        if st is not None and sorts:
+            _LAST_UF_APPS[0] = st.__dict__.setdefault("_uf_apps", {})
+            grp = _LAST_UF_APPS[0].setdefault((self.name, len(args), kws, str(rs)), [])
+            for osorts, oterms, ot in grp:
+                if osorts == sorts:
+                    continue
+                eqs = []
+                for a, b in zip(terms, oterms):
+                    sa, sb = a.sort(), b.sort()
+                    if sa == sb:
+                        eqs.append(a == b)
+                    elif {str(sa), str(sb)} == {"Int", "Real"}:
+                        eqs.append((z3.ToReal(a) if str(sa) == "Int" else a) == (z3.ToReal(b) if str(sb) == "Int" else b))
+                    else:
+                        eqs = None
+                        break
+                if eqs is not None:
+                    st.add(z3.Implies(z3.And(*eqs), ot == t))
+            grp.append((sorts, terms, t))
         if fam == "bv":
             lo, hi = self.result_range or (-128, 127)
             explore.assume(z3.And(t >= lo, t <= hi))
@@ -1050,6 +1080,32 @@ class ConcreteUF:
         self.uf = uf
         self.model = model
         self.calls = 0
+        self.apps = {k: list(v) for k, v in _LAST_UF_APPS[0].items() if k[0] == uf.name}
+
+    def _from_apps(self, nargs, kws, rs_name, vals):
+        for sorts, terms, t in self.apps.get((self.uf.name, nargs, kws, rs_name), []):
+            try:
+                ok = True
+                for v, tm in zip(vals, terms):
+                    mv = term_value(self.model.eval(tm, model_completion=True))
+                    if isinstance(v, bool) != isinstance(mv, bool) and z3.is_bool(tm):
+                        ok = False
+                        break
+                    if isinstance(v, float) and v != v:
+                        ok = False
+                        break
+                    if isinstance(v, (int, float, Fraction)) and isinstance(mv, (int, float, Fraction)):
+                        if _frac_of(v) != _frac_of(mv):
+                            ok = False
+                            break
+                    elif v != mv:
+                        ok = False
+                        break
+                if ok:
+                    return True, term_value(self.model.eval(t, model_completion=True))
+            except Exception:  # noqa: BLE001
+                continue
+        return False, None
 
     def __call__(self, *args, **kwargs):
         self.calls += 1
@@ -1060,6 +1116,9 @@ class ConcreteUF:
             kws = tuple(sorted(kwargs))
             vals = list(args) + [kwargs[k] for k in kws]
             rs_name = str({"int": z3.IntSort(), "real": z3.RealSort(), "bv": z3.BitVecSort(BVW)}[fam])
+            hit, val = self._from_apps(len(args), kws, rs_name, vals)
+            if hit:
+                return val
             # the function symbol is keyed by argument sorts; find the registered signature(s) for this
             # name/arity and cast the concrete arguments to them (ints fit Real, integral fractions fit Int)
             cands = []
@@ -1101,16 +1160,34 @@ class ConcreteUF:
                         break
                 if ok:
                     fname = f.name() if isinstance(f, z3.FuncDeclRef) else f.decl().name()
-                    cands.append((fname in in_model, exact, f, terms))
+                    cands.append((fname in in_model, _explicit_entry(self.model, f, terms), exact, f, terms))
             if not cands:
                 return 0
-            # prefer function symbols the model actually interprets, then exact sort matches
-            cands.sort(key=lambda c: (c[0], c[1]), reverse=True)
-            _, _, f, terms = cands[0]
+            # prefer function symbols the model actually interprets, among them a signature with an explicit
+            # entry for these arguments (Int- and Real-sorted signatures of one function are linked by congruence
+            # axioms on the applications that occurred, see UF.__call__), then exact sort matches
+            cands.sort(key=lambda c: (c[0], c[1], c[2]), reverse=True)
+            _, _, _, f, terms = cands[0]
             t = f(*terms) if terms else f
             return term_value(self.model.eval(t, model_completion=True))
         finally:
             explore._CUR = prev
+
+
+def _explicit_entry(model, f, terms):
+    if not terms or not isinstance(f, z3.FuncDeclRef):
+        return False
+    try:
+        fi = model[f]
+        if fi is None or not isinstance(fi, z3.FuncInterp):
+            return False
+        for i in range(fi.num_entries()):
+            e = fi.entry(i)
+            if all(z3.is_true(z3.simplify(e.arg_value(j) == terms[j])) for j in range(e.num_args())):
+                return True
+    except Exception:  # noqa: BLE001
+        return False
+    return False
 
 
 class ConcreteArray:
